@@ -5,12 +5,14 @@ import (
 	"fmt"
 	"os"
 	"sort"
+	"strings"
 	"time"
 
 	"verifcheck/internal/core"
 	"verifcheck/internal/flow"
 	"verifcheck/internal/locks"
 	"verifcheck/internal/rules"
+	"verifcheck/internal/ssaq"
 )
 
 func usage() {
@@ -59,6 +61,56 @@ func main() {
 		}
 	case "dump-locks":
 		dumpLocks()
+	case "gen-lemmas":
+		p, err := core.Load(core.RepoDir(), nil, nil)
+		if err != nil {
+			fmt.Println(err)
+			os.Exit(1)
+		}
+		fmt.Print(rules.GenLemmas(p))
+	case "anchors":
+		p, err := core.Load(core.RepoDir(), nil, nil)
+		if err != nil {
+			fmt.Println(err)
+			os.Exit(1)
+		}
+		q := ssaq.For(p)
+		for _, name := range os.Args[2:] {
+			f := q.Func(name)
+			if f == nil {
+				fmt.Println("##", name, "NOT FOUND")
+				continue
+			}
+			fmt.Println("##", name)
+			for _, a := range ssaq.Anchors(f) {
+				fmt.Printf("  %s #%d (%s)\n", a.Callee, a.Ordinal, strings.Join(a.Args, ", "))
+				for _, at := range a.Atoms {
+					fmt.Println("        ", at)
+				}
+			}
+		}
+	case "fingerprint":
+		p, err := core.Load(core.RepoDir(), nil, nil)
+		if err != nil {
+			fmt.Println(err)
+			os.Exit(1)
+		}
+		q := ssaq.For(p)
+		for _, name := range os.Args[2:] {
+			f := q.Func(name)
+			if f == nil {
+				fmt.Println("##", name, "NOT FOUND")
+				continue
+			}
+			lines, err := ssaq.Fingerprint(f)
+			fmt.Println("##", name)
+			if err != nil {
+				fmt.Println("   error:", err)
+			}
+			for _, l := range lines {
+				fmt.Println("   ", l)
+			}
+		}
 	default:
 		usage()
 	}
